@@ -1,7 +1,9 @@
 package main
 
 import (
+	"bytes"
 	"fmt"
+	"strings"
 
 	simdjson "github.com/minio/simdjson-go"
 
@@ -473,6 +475,18 @@ func runC14(w *W) {
 	}
 	for _, span := range [][2]int{{8190, 8194}, {8188, 8190}, {0, 8192}, {8191, 8193}} {
 		w.c14Large(st, 20000, span[0], span[1])
+	}
+	// member names of 63, 64, 65, 100 and 300 bytes next to short ones: every subset, with fn, with a
+	// key filter and with both (whatever a filter does with a name, it does not depend on its length)
+	for v := 0; v < 4; v++ {
+		names := []int{63, 64, 65, 100, 300, 3}
+		var b bytes.Buffer
+		b.WriteString(`{"first":1`)
+		for i, n := range names[v : v+3] {
+			fmt.Fprintf(&b, `,"%s":%s`, strings.Repeat(string(rune('a'+i)), n), []string{`"s"`, `[1,2]`, `{"x":null}`, `2.5`}[(i+v)%4])
+		}
+		b.WriteString(`,"last":true}`)
+		w.c14Enumerate(st, "long-names", b.Bytes())
 	}
 	nEnum, nHist := 2500, 20000
 	if w.thorough() {
